@@ -41,9 +41,6 @@ Lemma tap_timeout_tx_csv1 : forall cltv c, cltv < 2147483648 -> 2 <= tx_version 
   csv_sat (receiver_htlc_script_taproot_timeout_tx (Z.of_N cltv) c) 1 = true.
 Proof. intros cltv c H Hv Hs. rewrite (proj2 (timeout_tx_eq cltv c H)). apply csv_sat_exact; assumption. Qed.
 
-Definition hash160_of (sha256 ripemd160 : bytes -> bytes) : bytes -> bytes :=
-  fun x => ripemd160 (sha256 x).
-
 (* "nSequence >= delay" for block-based relative locktimes *)
 Lemma csv_blocks_sufficient : forall ctx d,
   2 <= tx_version ctx -> d <= in_sequence ctx -> in_sequence ctx < 65536 -> csv_sat ctx d = true.
@@ -119,25 +116,25 @@ Proof.
   unfold hash160_of in h.
   repeat split.
   - (* to_local (CommitScriptToSelf / CommitSpendRevoke) *)
-    intros; eapply to_local_revoke; try (match goal with |- parse_script _ = Some _ => eassumption end); eauto.
+    intros; eapply (to_local_revoke h sigcheck); try (match goal with |- parse_script _ = Some _ => eassumption | |- spend_p2wsh _ _ _ _ = true => eassumption | |- spend_tapleaf _ _ _ _ = true => eassumption end); eauto.
     all: try (subst h; apply Hrip).
   - (* to_local of script-enforced lease channels *)
-    intros; eapply lease_to_local_revoke; try (match goal with |- parse_script _ = Some _ => eassumption end); eauto.
+    intros; eapply (lease_to_local_revoke h sigcheck); try (match goal with |- parse_script _ = Some _ => eassumption | |- spend_p2wsh _ _ _ _ = true => eassumption | |- spend_tapleaf _ _ _ _ = true => eassumption end); eauto.
     all: try (subst h; apply Hrip).
   - (* offered HTLC (SenderHTLCScript / SenderHtlcSpendRevoke[WithKey]) *)
-    intros; eapply offered_revoke; try (match goal with |- parse_script _ = Some _ => eassumption end); eauto.
+    intros; eapply (offered_revoke h sigcheck); try (match goal with |- parse_script _ = Some _ => eassumption | |- spend_p2wsh _ _ _ _ = true => eassumption | |- spend_tapleaf _ _ _ _ = true => eassumption end); eauto.
     all: try (subst h; apply Hrip).
   - (* received HTLC (ReceiverHTLCScript / ReceiverHtlcSpendRevoke[WithKey]) *)
-    intros; eapply received_revoke; try (match goal with |- parse_script _ = Some _ => eassumption end); eauto.
+    intros; eapply (received_revoke h sigcheck); try (match goal with |- parse_script _ = Some _ => eassumption | |- spend_p2wsh _ _ _ _ = true => eassumption | |- spend_tapleaf _ _ _ _ = true => eassumption end); eauto.
     all: try (subst h; apply Hrip).
   - (* second-level HTLC output (SecondLevelHtlcScript / HtlcSpendRevoke) *)
-    intros; eapply second_level_revoke; try (match goal with |- parse_script _ = Some _ => eassumption end); eauto.
+    intros; eapply (second_level_revoke h sigcheck); try (match goal with |- parse_script _ = Some _ => eassumption | |- spend_p2wsh _ _ _ _ = true => eassumption | |- spend_tapleaf _ _ _ _ = true => eassumption end); eauto.
     all: try (subst h; apply Hrip).
   - (* second-level HTLC output of lease channels *)
-    intros; eapply lease_second_level_revoke; try (match goal with |- parse_script _ = Some _ => eassumption end); eauto.
+    intros; eapply (lease_second_level_revoke h sigcheck); try (match goal with |- parse_script _ = Some _ => eassumption | |- spend_p2wsh _ _ _ _ = true => eassumption | |- spend_tapleaf _ _ _ _ = true => eassumption end); eauto.
     all: try (subst h; apply Hrip).
   - (* taproot to_local, revocation LEAF (script path; TaprootCommitSpendRevoke).  The taproot HTLC and *)
-    intros; eapply tap_to_local_revoke; try (match goal with |- parse_script _ = Some _ => eassumption end); eauto.
+    intros; eapply (tap_to_local_revoke h sigcheck); try (match goal with |- parse_script _ = Some _ => eassumption | |- spend_p2wsh _ _ _ _ = true => eassumption | |- spend_tapleaf _ _ _ _ = true => eassumption end); eauto.
     all: try (subst h; apply Hrip).
 Qed.
 
@@ -193,22 +190,22 @@ Proof.
   unfold hash160_of in h.
   repeat split.
   - (* to_local *)
-    intros; eapply to_local_revoke_needs_key; try (match goal with |- parse_script _ = Some _ => eassumption end); eauto.
+    intros; eapply (to_local_revoke_needs_key h sigcheck); try (match goal with |- parse_script _ = Some _ => eassumption | |- spend_p2wsh _ _ _ _ = true => eassumption | |- spend_tapleaf _ _ _ _ = true => eassumption end); eauto.
     all: try (subst h; apply Hrip).
   - (* lease to_local *)
-    intros; eapply lease_to_local_revoke_needs_key; try (match goal with |- parse_script _ = Some _ => eassumption end); eauto.
+    intros; eapply (lease_to_local_revoke_needs_key h sigcheck); try (match goal with |- parse_script _ = Some _ => eassumption | |- spend_p2wsh _ _ _ _ = true => eassumption | |- spend_tapleaf _ _ _ _ = true => eassumption end); eauto.
     all: try (subst h; apply Hrip).
   - (* second-level output *)
-    intros; eapply second_level_revoke_needs_key; try (match goal with |- parse_script _ = Some _ => eassumption end); eauto.
+    intros; eapply (second_level_revoke_needs_key h sigcheck); try (match goal with |- parse_script _ = Some _ => eassumption | |- spend_p2wsh _ _ _ _ = true => eassumption | |- spend_tapleaf _ _ _ _ = true => eassumption end); eauto.
     all: try (subst h; apply Hrip).
   - (* offered HTLC *)
-    intros; eapply offered_revoke_needs_key; try (match goal with |- parse_script _ = Some _ => eassumption end); eauto.
+    intros; eapply (offered_revoke_needs_key h sigcheck); try (match goal with |- parse_script _ = Some _ => eassumption | |- spend_p2wsh _ _ _ _ = true => eassumption | |- spend_tapleaf _ _ _ _ = true => eassumption end); eauto.
     all: try (subst h; apply Hrip).
   - (* received HTLC *)
-    intros; eapply received_revoke_needs_key; try (match goal with |- parse_script _ = Some _ => eassumption end); eauto.
+    intros; eapply (received_revoke_needs_key h sigcheck); try (match goal with |- parse_script _ = Some _ => eassumption | |- spend_p2wsh _ _ _ _ = true => eassumption | |- spend_tapleaf _ _ _ _ = true => eassumption end); eauto.
     all: try (subst h; apply Hrip).
   - (* taproot to_local revocation leaf *)
-    intros; eapply tap_to_local_revoke_needs_key; try (match goal with |- parse_script _ = Some _ => eassumption end); eauto.
+    intros; eapply (tap_to_local_revoke_needs_key h sigcheck); try (match goal with |- parse_script _ = Some _ => eassumption | |- spend_p2wsh _ _ _ _ = true => eassumption | |- spend_tapleaf _ _ _ _ = true => eassumption end); eauto.
     all: try (subst h; apply Hrip).
 Qed.
 
@@ -314,37 +311,37 @@ Proof.
   unfold hash160_of in h.
   repeat split.
   - (* to_local after CSV: sweep input nSequence = LockTimeToSequence(false, csv), tx version >= 2 *)
-    intros; eapply to_local_timeout; try (match goal with |- parse_script _ = Some _ => eassumption end); eauto using csv_sat_exact.
+    intros; eapply (to_local_timeout h sigcheck); try (match goal with |- parse_script _ = Some _ => eassumption | |- spend_p2wsh _ _ _ _ = true => eassumption | |- spend_tapleaf _ _ _ _ = true => eassumption end); eauto using csv_sat_exact.
     all: try (subst h; apply Hrip).
   - (* lease to_local: additionally nLockTime >= lease expiry (block heights), input not final *)
-    intros; eapply lease_to_local_timeout; try (match goal with |- parse_script _ = Some _ => eassumption end); eauto using csv_sat_exact, cltv_sat_height.
+    intros; eapply (lease_to_local_timeout h sigcheck); try (match goal with |- parse_script _ = Some _ => eassumption | |- spend_p2wsh _ _ _ _ = true => eassumption | |- spend_tapleaf _ _ _ _ = true => eassumption end); eauto using csv_sat_exact, cltv_sat_height.
     all: try (subst h; apply Hrip).
   - (* HTLC-timeout input: offered HTLC on our commitment, 2-of-2 with the remote signature *)
-    intros; eapply offered_timeout; try (match goal with |- parse_script _ = Some _ => eassumption end); eauto; intro Hc; match goal with H : _ = true -> _ /\ _ |- _ => destruct (H Hc) end; eauto using csv_sat_exact.
+    intros; eapply (offered_timeout h sigcheck); try (match goal with |- parse_script _ = Some _ => eassumption | |- spend_p2wsh _ _ _ _ = true => eassumption | |- spend_tapleaf _ _ _ _ = true => eassumption end); eauto; intro Hc; match goal with H : _ = true -> _ /\ _ |- _ => destruct (H Hc) end; eauto using csv_sat_exact.
     all: try (subst h; apply Hrip).
   - (* HTLC-success input: received HTLC on our commitment, 2-of-2 plus the preimage *)
-    intros; eapply received_redeem; try (match goal with |- parse_script _ = Some _ => eassumption end); eauto; intro Hc; match goal with H : _ = true -> _ /\ _ |- _ => destruct (H Hc) end; eauto using csv_sat_exact.
+    intros; eapply (received_redeem h sigcheck); try (match goal with |- parse_script _ = Some _ => eassumption | |- spend_p2wsh _ _ _ _ = true => eassumption | |- spend_tapleaf _ _ _ _ = true => eassumption end); eauto; intro Hc; match goal with H : _ = true -> _ /\ _ |- _ => destruct (H Hc) end; eauto using csv_sat_exact.
     all: try (subst h; apply Hrip).
   - (* second-level output after CSV; HtlcSpendSuccess rewrites nSequence and version itself *)
-    intros; eapply second_level_delay; try (match goal with |- parse_script _ = Some _ => eassumption end); eauto; apply csv_sat_exact; [cbn; lia | reflexivity].
+    intros; eapply (second_level_delay h sigcheck); try (match goal with |- parse_script _ = Some _ => eassumption | |- spend_p2wsh _ _ _ _ = true => eassumption | |- spend_tapleaf _ _ _ _ = true => eassumption end); eauto; apply csv_sat_exact; [cbn; lia | reflexivity].
     all: try (subst h; apply Hrip).
   - (* second-level output through HtlcSecondLevelSpend (caller sets nSequence) *)
-    intros; eapply second_level_delay; try (match goal with |- parse_script _ = Some _ => eassumption end); eauto using csv_sat_exact.
+    intros; eapply (second_level_delay h sigcheck); try (match goal with |- parse_script _ = Some _ => eassumption | |- spend_p2wsh _ _ _ _ = true => eassumption | |- spend_tapleaf _ _ _ _ = true => eassumption end); eauto using csv_sat_exact.
     all: try (subst h; apply Hrip).
   - (* lease second-level output *)
-    intros; eapply lease_second_level_delay; try (match goal with |- parse_script _ = Some _ => eassumption end); eauto using csv_sat_exact, cltv_sat_height.
+    intros; eapply (lease_second_level_delay h sigcheck); try (match goal with |- parse_script _ = Some _ => eassumption | |- spend_p2wsh _ _ _ _ = true => eassumption | |- spend_tapleaf _ _ _ _ = true => eassumption end); eauto using csv_sat_exact, cltv_sat_height.
     all: try (subst h; apply Hrip).
   - (* taproot to_local delay leaf (default and production scripts; the production leaf leaves the CSV *)
-    intros; eapply tap_to_local_delay; try (match goal with |- parse_script _ = Some _ => eassumption end); eauto using csv_sat_exact.
+    intros; eapply (tap_to_local_delay h sigcheck); try (match goal with |- parse_script _ = Some _ => eassumption | |- spend_p2wsh _ _ _ _ = true => eassumption | |- spend_tapleaf _ _ _ _ = true => eassumption end); eauto using csv_sat_exact.
     all: try (subst h; apply Hrip).
   - (* taproot second-level delay leaf *)
-    intros; eapply tap_second_level_delay; try (match goal with |- parse_script _ = Some _ => eassumption end); eauto using csv_sat_exact.
+    intros; eapply (tap_second_level_delay h sigcheck); try (match goal with |- parse_script _ = Some _ => eassumption | |- spend_p2wsh _ _ _ _ = true => eassumption | |- spend_tapleaf _ _ _ _ = true => eassumption end); eauto using csv_sat_exact.
     all: try (subst h; apply Hrip).
   - (* taproot offered-HTLC timeout leaf (both signatures) *)
-    intros; eapply tap_offered_timeout; try (match goal with |- parse_script _ = Some _ => eassumption end); eauto.
+    intros; eapply (tap_offered_timeout h sigcheck); try (match goal with |- parse_script _ = Some _ => eassumption | |- spend_p2wsh _ _ _ _ = true => eassumption | |- spend_tapleaf _ _ _ _ = true => eassumption end); eauto.
     all: try (subst h; apply Hrip).
   - (* taproot received-HTLC success leaf (both signatures and the preimage) *)
-    intros; eapply tap_received_redeem; try (match goal with |- parse_script _ = Some _ => eassumption end); eauto.
+    intros; eapply (tap_received_redeem h sigcheck); try (match goal with |- parse_script _ = Some _ => eassumption | |- spend_p2wsh _ _ _ _ = true => eassumption | |- spend_tapleaf _ _ _ _ = true => eassumption end); eauto.
     all: try (subst h; apply Hrip).
 Qed.
 
@@ -448,37 +445,37 @@ Proof.
   unfold hash160_of in h.
   repeat split.
   - (* to_remote, legacy/tweakless channels: P2WKH (CommitSpendNoDelay) *)
-    intros; eapply to_remote_p2wkh; try (match goal with |- parse_script _ = Some _ => eassumption end); eauto.
+    intros; eapply (to_remote_p2wkh h sigcheck); try (match goal with |- parse_script _ = Some _ => eassumption | |- spend_p2wsh _ _ _ _ = true => eassumption | |- spend_tapleaf _ _ _ _ = true => eassumption end); eauto.
     all: try (subst h; apply Hrip).
   - (* to_remote of anchor channels: 1-block CSV (nSequence = 1, version >= 2) *)
-    intros; eapply to_remote_confirmed; try (match goal with |- parse_script _ = Some _ => eassumption end); eauto using csv_sat_exact.
+    intros; eapply (to_remote_confirmed h sigcheck); try (match goal with |- parse_script _ = Some _ => eassumption | |- spend_p2wsh _ _ _ _ = true => eassumption | |- spend_tapleaf _ _ _ _ = true => eassumption end); eauto using csv_sat_exact.
     all: try (subst h; apply Hrip).
   - (* to_remote of lease channels: CLTV lease expiry and 1-block CSV *)
-    intros; eapply lease_to_remote_confirmed; try (match goal with |- parse_script _ = Some _ => eassumption end); eauto using csv_sat_exact; eapply cltv_sat_height; try (match goal with |- parse_script _ = Some _ => eassumption end); eauto; match goal with H : in_sequence _ = 1 |- _ => rewrite H end; discriminate.
+    intros; eapply (lease_to_remote_confirmed h sigcheck); try (match goal with |- parse_script _ = Some _ => eassumption | |- spend_p2wsh _ _ _ _ = true => eassumption | |- spend_tapleaf _ _ _ _ = true => eassumption end); eauto using csv_sat_exact; eapply cltv_sat_height; try (match goal with |- parse_script _ = Some _ => eassumption | |- spend_p2wsh _ _ _ _ = true => eassumption | |- spend_tapleaf _ _ _ _ = true => eassumption end); eauto; match goal with H : in_sequence _ = 1 |- _ => rewrite H end; discriminate.
     all: try (subst h; apply Hrip).
   - (* HTLC they offered, claimed with the preimage p (script checks hash160 p = ripemd160 (sha256 p)) *)
-    intros; eapply offered_redeem; try (match goal with |- parse_script _ = Some _ => eassumption end); eauto; intro Hc; match goal with H : _ = true -> _ /\ _ |- _ => destruct (H Hc) end; eauto using csv_sat_exact.
+    intros; eapply (offered_redeem h sigcheck); try (match goal with |- parse_script _ = Some _ => eassumption | |- spend_p2wsh _ _ _ _ = true => eassumption | |- spend_tapleaf _ _ _ _ = true => eassumption end); eauto; intro Hc; match goal with H : _ = true -> _ /\ _ |- _ => destruct (H Hc) end; eauto using csv_sat_exact.
     all: try (subst h; apply Hrip).
   - (* HTLC we offered, timed out after CLTV: ReceiverHtlcSpendTimeout sets nLockTime := expiry itself *)
-    intros; eapply received_timeout; try (match goal with |- parse_script _ = Some _ => eassumption end); eauto using timeout_tx_cltv; [unfold u32; lia | intro Hc; match goal with H : _ = true -> _ /\ _ |- _ => destruct (H Hc) end; apply timeout_tx_csv1; auto].
+    intros; eapply (received_timeout h sigcheck); try (match goal with |- parse_script _ = Some _ => eassumption | |- spend_p2wsh _ _ _ _ = true => eassumption | |- spend_tapleaf _ _ _ _ = true => eassumption end); eauto using timeout_tx_cltv; [unfold u32; lia | intro Hc; match goal with H : _ = true -> _ /\ _ |- _ => destruct (H Hc) end; apply timeout_tx_csv1; auto].
     all: try (subst h; apply Hrip).
   - (* anchor, by its owner *)
-    intros; eapply anchor_owner; try (match goal with |- parse_script _ = Some _ => eassumption end); eauto.
+    intros; eapply (anchor_owner h sigcheck); try (match goal with |- parse_script _ = Some _ => eassumption | |- spend_p2wsh _ _ _ _ = true => eassumption | |- spend_tapleaf _ _ _ _ = true => eassumption end); eauto.
     all: try (subst h; apply Hrip).
   - (* anchor, by anyone after 16 blocks *)
-    intros; eapply anchor_anyone; try (match goal with |- parse_script _ = Some _ => eassumption end); eauto using csv_sat_exact.
+    intros; eapply (anchor_anyone h sigcheck); try (match goal with |- parse_script _ = Some _ => eassumption | |- spend_p2wsh _ _ _ _ = true => eassumption | |- spend_tapleaf _ _ _ _ = true => eassumption end); eauto using csv_sat_exact.
     all: try (subst h; apply Hrip).
   - (* taproot to_remote leaf *)
-    intros; eapply tap_to_remote; try (match goal with |- parse_script _ = Some _ => eassumption end); eauto using csv_sat_exact.
+    intros; eapply (tap_to_remote h sigcheck); try (match goal with |- parse_script _ = Some _ => eassumption | |- spend_p2wsh _ _ _ _ = true => eassumption | |- spend_tapleaf _ _ _ _ = true => eassumption end); eauto using csv_sat_exact.
     all: try (subst h; apply Hrip).
   - (* taproot offered-HTLC success leaf (preimage) *)
-    intros; eapply tap_offered_redeem; try (match goal with |- parse_script _ = Some _ => eassumption end); eauto using csv_sat_exact.
+    intros; eapply (tap_offered_redeem h sigcheck); try (match goal with |- parse_script _ = Some _ => eassumption | |- spend_p2wsh _ _ _ _ = true => eassumption | |- spend_tapleaf _ _ _ _ = true => eassumption end); eauto using csv_sat_exact.
     all: try (subst h; apply Hrip).
   - (* taproot received-HTLC timeout leaf: ReceiverHTLCScriptTaprootTimeout sets nLockTime := expiry *)
-    intros; eapply tap_received_timeout; try (match goal with |- parse_script _ = Some _ => eassumption end); eauto; [unfold u32; lia | apply tap_timeout_tx_csv1; auto | apply tap_timeout_tx_cltv; [assumption | match goal with H : in_sequence _ = 1 |- _ => rewrite H end; discriminate]].
+    intros; eapply (tap_received_timeout h sigcheck); try (match goal with |- parse_script _ = Some _ => eassumption | |- spend_p2wsh _ _ _ _ = true => eassumption | |- spend_tapleaf _ _ _ _ = true => eassumption end); eauto; [unfold u32; lia | apply tap_timeout_tx_csv1; auto | apply tap_timeout_tx_cltv; [assumption | match goal with H : in_sequence _ = 1 |- _ => rewrite H end; discriminate]].
     all: try (subst h; apply Hrip).
   - (* taproot anchor, by anyone after 16 blocks (script path; the owner's spend is a key-path spend) *)
-    intros; eapply tap_anchor_anyone; try (match goal with |- parse_script _ = Some _ => eassumption end); eauto using csv_sat_exact.
+    intros; eapply (tap_anchor_anyone h sigcheck); try (match goal with |- parse_script _ = Some _ => eassumption | |- spend_p2wsh _ _ _ _ = true => eassumption | |- spend_tapleaf _ _ _ _ = true => eassumption end); eauto using csv_sat_exact.
     all: try (subst h; apply Hrip).
 Qed.
 
@@ -512,13 +509,13 @@ Proof.
   unfold hash160_of in h.
   repeat split.
   - (* offered HTLC (claimed by the receiver) *)
-    intros; eapply offered_redeem_needs_preimage; try (match goal with |- parse_script _ = Some _ => eassumption end); eauto.
+    intros; eapply (offered_redeem_needs_preimage h sigcheck); try (match goal with |- parse_script _ = Some _ => eassumption | |- spend_p2wsh _ _ _ _ = true => eassumption | |- spend_tapleaf _ _ _ _ = true => eassumption end); eauto.
     all: try (subst h; apply Hrip).
   - (* received HTLC (HTLC-success input) *)
-    intros; eapply received_redeem_needs_preimage; try (match goal with |- parse_script _ = Some _ => eassumption end); eauto.
+    intros; eapply (received_redeem_needs_preimage h sigcheck); try (match goal with |- parse_script _ = Some _ => eassumption | |- spend_p2wsh _ _ _ _ = true => eassumption | |- spend_tapleaf _ _ _ _ = true => eassumption end); eauto.
     all: try (subst h; apply Hrip).
   - (* taproot offered-HTLC success leaf *)
-    intros; eapply tap_offered_redeem_needs_preimage; try (match goal with |- parse_script _ = Some _ => eassumption end); eauto.
+    intros; eapply (tap_offered_redeem_needs_preimage h sigcheck); try (match goal with |- parse_script _ = Some _ => eassumption | |- spend_p2wsh _ _ _ _ = true => eassumption | |- spend_tapleaf _ _ _ _ = true => eassumption end); eauto.
     all: try (subst h; apply Hrip).
 Qed.
 
@@ -538,7 +535,91 @@ Proof.
   unfold hash160_of in h.
   repeat split.
   - (* received HTLC, v0 *)
-    intros; eapply received_timeout_needs_locktime; try (match goal with |- parse_script _ = Some _ => eassumption end); eauto.
+    intros; eapply (received_timeout_needs_locktime h sigcheck); try (match goal with |- parse_script _ = Some _ => eassumption | |- spend_p2wsh _ _ _ _ = true => eassumption | |- spend_tapleaf _ _ _ _ = true => eassumption end); eauto.
+    all: try (subst h; apply Hrip).
+Qed.
+
+Lemma C05_delay_is_enforced_proof :
+  forall (sha256 ripemd160 : bytes -> bytes) (sigcheck : bytes -> bytes -> sigres),
+  let h := hash160_of sha256 ripemd160 in
+  (forall x, hash20 (ripemd160 x)) ->
+  (* to_local *)
+  (forall ctx csv selfkey revkey sig ws,
+     key33 revkey -> key33 selfkey -> u32 csv -> elem_ok sig ->
+     parse_script ws = Some (commit_script_to_self_of sha256 ripemd160 csv selfkey revkey) ->
+     spend_p2wsh h sigcheck ctx (commit_spend_timeout sig ws) = true -> csv_sat ctx csv = true)
+  /\
+  (* lease to_local: CSV and the CLTV lease expiry *)
+  (forall ctx csv lease selfkey revkey sig ws,
+     key33 revkey -> key33 selfkey -> u32 csv -> u32 lease -> elem_ok sig ->
+     parse_script ws = Some (lease_commit_script_to_self_of sha256 ripemd160 selfkey revkey csv lease) ->
+     spend_p2wsh h sigcheck ctx (commit_spend_timeout sig ws) = true ->
+     csv_sat ctx csv && cltv_sat ctx lease = true)
+  /\
+  (* second-level output *)
+  (forall ctx csv delaykey revkey sig ws,
+     key33 revkey -> key33 delaykey -> u32 csv -> elem_ok sig ->
+     parse_script ws = Some (second_level_htlc_script_of sha256 ripemd160 revkey delaykey csv) ->
+     spend_p2wsh h sigcheck ctx (htlc_second_level_spend sig ws) = true -> csv_sat ctx csv = true)
+  /\
+  (* to_remote of anchor channels *)
+  (forall ctx key sig ws,
+     key33 key -> elem_ok sig ->
+     parse_script ws = Some (commit_script_to_remote_confirmed_of sha256 ripemd160 key) ->
+     spend_p2wsh h sigcheck ctx (commit_spend_to_remote_confirmed sig ws) = true -> csv_sat ctx 1 = true)
+  /\
+  (* offered HTLC with confirmedSpend, preimage path *)
+  (forall ctx senderkey receiverkey revkey p sig ws,
+     key33 revkey -> key33 senderkey -> key33 receiverkey -> elem_ok sig -> blen p = 32 ->
+     parse_script ws = Some (sender_htlc_script_of sha256 ripemd160 true senderkey receiverkey revkey (sha256 p)) ->
+     h revkey <> h p ->
+     spend_p2wsh h sigcheck ctx (sender_htlc_spend_redeem sig p ws) = true -> csv_sat ctx 1 = true)
+  /\
+  (* received HTLC with confirmedSpend, timeout path *)
+  (forall ctx cltv senderkey receiverkey revkey payhash sig ws,
+     key33 revkey -> key33 senderkey -> key33 receiverkey -> u32 cltv -> elem_ok sig ->
+     parse_script ws = Some (receiver_htlc_script_of sha256 ripemd160 true cltv senderkey receiverkey revkey payhash) ->
+     h revkey <> h [] ->
+     spend_p2wsh h sigcheck ctx (receiver_htlc_spend_timeout sig ws) = true -> csv_sat ctx 1 = true)
+  /\
+  (* taproot to_local delay leaf *)
+  (forall ctx (prod : bool) csv selfkey sig ls cb,
+     xonly selfkey -> u32 csv -> elem_ok sig -> elem_ok ls -> elem_ok cb ->
+     parse_script ls = Some (taproot_local_commit_delay_script_of sha256 ripemd160 prod csv selfkey) ->
+     spend_tapleaf h sigcheck ctx (taproot_commit_spend_success sig ls cb) = true -> csv_sat ctx csv = true)
+  /\
+  (* taproot second-level delay leaf *)
+  (forall ctx (prod : bool) csv delaykey sig ls cb,
+     xonly delaykey -> u32 csv -> elem_ok sig -> elem_ok ls -> elem_ok cb ->
+     parse_script ls = Some (taproot_second_level_tap_leaf_of sha256 ripemd160 prod delaykey csv) ->
+     spend_tapleaf h sigcheck ctx (taproot_htlc_spend_success sig ls cb) = true -> csv_sat ctx csv = true).
+Proof.
+  intros sha256 ripemd160 sigcheck h Hrip.
+  unfold hash160_of in h.
+  repeat split.
+  - (* to_local *)
+    intros; eapply (to_local_timeout_needs_csv h sigcheck); try (match goal with |- parse_script _ = Some _ => eassumption | |- spend_p2wsh _ _ _ _ = true => eassumption | |- spend_tapleaf _ _ _ _ = true => eassumption end); eauto.
+    all: try (subst h; apply Hrip).
+  - (* lease to_local: CSV and the CLTV lease expiry *)
+    intros; apply andb_true_intro; eapply (lease_to_local_timeout_needs_csv h sigcheck); try (match goal with |- parse_script _ = Some _ => eassumption | |- spend_p2wsh _ _ _ _ = true => eassumption | |- spend_tapleaf _ _ _ _ = true => eassumption end); eauto.
+    all: try (subst h; apply Hrip).
+  - (* second-level output *)
+    intros; eapply (second_level_delay_needs_csv h sigcheck); try (match goal with |- parse_script _ = Some _ => eassumption | |- spend_p2wsh _ _ _ _ = true => eassumption | |- spend_tapleaf _ _ _ _ = true => eassumption end); eauto.
+    all: try (subst h; apply Hrip).
+  - (* to_remote of anchor channels *)
+    intros; eapply (to_remote_confirmed_needs_csv h sigcheck); try (match goal with |- parse_script _ = Some _ => eassumption | |- spend_p2wsh _ _ _ _ = true => eassumption | |- spend_tapleaf _ _ _ _ = true => eassumption end); eauto.
+    all: try (subst h; apply Hrip).
+  - (* offered HTLC with confirmedSpend, preimage path *)
+    intros; eapply (offered_redeem_confirmed_needs_csv h sigcheck); try (match goal with |- parse_script _ = Some _ => eassumption | |- spend_p2wsh _ _ _ _ = true => eassumption | |- spend_tapleaf _ _ _ _ = true => eassumption end); eauto.
+    all: try (subst h; apply Hrip).
+  - (* received HTLC with confirmedSpend, timeout path *)
+    intros; eapply (received_timeout_confirmed_needs_csv h sigcheck); try (match goal with |- parse_script _ = Some _ => eassumption | |- spend_p2wsh _ _ _ _ = true => eassumption | |- spend_tapleaf _ _ _ _ = true => eassumption end); eauto.
+    all: try (subst h; apply Hrip).
+  - (* taproot to_local delay leaf *)
+    intros; eapply (tap_to_local_delay_needs_csv h sigcheck); try (match goal with |- parse_script _ = Some _ => eassumption | |- spend_p2wsh _ _ _ _ = true => eassumption | |- spend_tapleaf _ _ _ _ = true => eassumption end); eauto.
+    all: try (subst h; apply Hrip).
+  - (* taproot second-level delay leaf *)
+    intros; eapply (tap_second_level_delay_needs_csv h sigcheck); try (match goal with |- parse_script _ = Some _ => eassumption | |- spend_p2wsh _ _ _ _ = true => eassumption | |- spend_tapleaf _ _ _ _ = true => eassumption end); eauto.
     all: try (subst h; apply Hrip).
 Qed.
 
@@ -557,7 +638,7 @@ Proof.
   unfold hash160_of in h.
   repeat split.
   - (* funding multisig *)
-    intros ctx greater; destruct greater; intros; unfold spend_multi_sig; [eapply funding_multisig with (pa := pb) (pb := pa) | eapply funding_multisig with (pa := pa) (pb := pb)]; eauto.
+    intros ctx greater; destruct greater; intros; unfold spend_multi_sig; [eapply (funding_multisig h sigcheck) with (pa := pb) (pb := pa) | eapply (funding_multisig h sigcheck) with (pa := pa) (pb := pb)]; eauto.
     all: try (subst h; apply Hrip).
 Qed.
 
